@@ -40,7 +40,7 @@ func init() {
 			"length-consistent mutation of it (14 classes); oracle: (a) the matcher matches and the ClientHelloInfo it hands to sub-matchers equals field by field the one " +
 			"crypto/tls' server hands to GetConfigForClient, placeholders equal the reference server name / the hello's legacy_version; (b) sni and alpn sub-matcher verdicts equal " +
 			"the same matcher modules evaluated on the reference ClientHelloInfo; (c) inputs whose first byte is not 0x16 never match; (d) every proper prefix asks for more data. " +
-			"non-trivial = crypto/tls' server reached GetConfigForClient for the flight; distinct = hash(config class, mutation class/sub-variant, extension-presence mask)",
+			"non-trivial = crypto/tls' server reached GetConfigForClient for the flight; distinct = hash(config class, mutation class/sub-variant, extension-presence mask). (e) two tls matchers (sni, alpn) as the matcher sets of one not matcher: verdict on the complete flight = negation of the reference sub-matchers.",
 		Assumptions: []string{
 			"crypto/tls (go1.23.5) server is the reference: ClientHelloInfo as passed to GetConfigForClient, without any normalisation by the monitor",
 			"mutated flights that crypto/tls rejects before GetConfigForClient are counted (reference_rejected_*), not judged, whatever the matcher says",
